@@ -4,7 +4,7 @@ import traceback
 import gtirb
 import gtirb_functions
 
-from .. import gen_rewrite, irbuild, irview, oracles, rewrite
+from .. import gen_rewrite, irbuild, irview, oracles, rewrite, vocab
 from ..listing import Listing
 from . import rwbase
 
@@ -67,9 +67,19 @@ def access_of(tok):
 
 
 def gen_case(rng, tier, index):
-    g = gen_rewrite.Gen(rng, tier)
+    g = gen_rewrite.Gen(rng, tier, sym_indirect=True)
     case = g.module()
     case["edits"] = []
+    # an undefined symbol may also be spelled "referent is None" (no proxy
+    # block); legal as A, refused as B.  Only for names that no control-flow
+    # operand mentions, so that no CFG edge depends on the missing proxy.
+    cf_used = {it["t"] for b in g.all_blocks for it in b["items"]
+               if it.get("t") and b["code"] and vocab.VOCAB[case["isa"]][
+                   it["k"]]["kind"] != "ord"}
+    case["noproxy"] = [e for e in case["externs"]
+                       if e not in cf_used and rng.random() < 0.35]
+    ind_used = {it["t"] for b in g.all_blocks for it in b["items"]
+                if it["k"] in ("icall_sym", "ijmp_sym")}
     labels_code = list(g.code_labels)
     externs = list(case["externs"])
     data_labels = [l for b in g.all_blocks if not b["code"]
@@ -81,19 +91,28 @@ def gen_case(rng, tier, index):
                 used.add(it["t"])
     pool_a = [l for l in labels_code + externs + data_labels if l in used] \
         or (labels_code + externs)
-    pool_b = labels_code + externs + (data_labels if rng.random() < 0.15
-                                      else [])
+    externs_b = [e for e in externs if e not in case["noproxy"]]
+    pool_b = labels_code + externs_b + (data_labels if rng.random() < 0.15
+                                        else [])
     n = rng.choice([1, 1, 2, 3])
     ret = []
-    for _ in range(n):
+    for _ in range(n if pool_a and pool_b else 0):
         a = rng.choice(pool_a)
         b = rng.choice(pool_b)
+        if a in ind_used and b not in externs_b:
+            # calls through memory keep their callee external (return edges
+            # of such calls are outside the statement)
+            if not externs_b:
+                continue
+            b = rng.choice(externs_b)
         if a == b or any(x[0] == a for x in ret):
             continue
         ret.append([a, b])
     if ret and rng.random() < 0.3 and len(pool_b) > 1:
         # chain
         c = rng.choice(pool_b)
+        if ret[0][1] in ind_used and c not in externs_b:
+            c = ret[0][1]
         if c != ret[0][1] and not any(x[0] == ret[0][1] for x in ret):
             ret.append([ret[0][1], c])
     case["retargets"] = ret
@@ -127,6 +146,12 @@ def run_case(case):
     bu.item_offsets = {bid: lst0.item_offsets(bid) for bid in lst0.block_info}
     m = bu.module
     externs = set(case["externs"])
+    for nme in case.get("noproxy", []):
+        sym = bu.symbols[nme]
+        px = sym.referent
+        sym.referent = None
+        if isinstance(px, gtirb.ProxyBlock) and not any(px.references):
+            m.proxies.discard(px)
     # input attributes following the ABI convention
     tok_attrs = {}
     for si, ii, t in lst0.all_tokens():
